@@ -51,6 +51,50 @@ type Generated struct {
 	// (producer id, original first offset) that were open at that point
 	LogStart int64
 	Open     [][2]int64
+	// Tail: units behind the last stable offset (an open transaction and whatever was appended after it began). A broker
+	// serves them to a read_uncommitted fetch only; Log (everything before the LSO) has every transaction decided.
+	Tail Log
+}
+
+// WithTail appends an open transaction (producer id 9) and possibly further batches behind the last stable offset.
+func (g Generated) WithTail(rng *rand.Rand) Generated {
+	if len(g.Log) == 0 || g.Log[len(g.Log)-1].B == nil {
+		return g
+	}
+	next := g.Log.End()
+	out := g
+	out.Tail = nil
+	for i, n := 0, 1+rng.Intn(3); i < n; i++ {
+		b := genBatch(rng, &next, 1+rng.Intn(2), false)
+		if i == 0 || rng.Intn(2) == 0 {
+			b.PID, b.Txn = 9, true
+		}
+		out.Tail = append(out.Tail, Unit{B: b})
+	}
+	if err := out.Tail.Encode(); err != nil {
+		panic(err)
+	}
+	return out
+}
+
+// ViewFor: what a fetch with the given isolation level can see: up to the last stable offset (read_committed) or up to
+// the high-water mark (read_uncommitted).
+func (g *Generated) ViewFor(readCommitted bool) *Generated {
+	if readCommitted || len(g.Tail) == 0 {
+		return g
+	}
+	v := *g
+	v.Log = append(append(Log{}, g.Log...), g.Tail...)
+	v.Tail = nil
+	return &v
+}
+
+// HWM is the high-water mark: the end of everything appended.
+func (g *Generated) HWM() int64 {
+	if len(g.Tail) > 0 {
+		return g.Tail.End()
+	}
+	return g.Log.End()
 }
 
 // Truncate deletes the first k stored units: the broker's log start offset moves to the first remaining unit,
